@@ -188,6 +188,7 @@ def run_dag(scn, *, hooks_factory=None, keep=False, extra_hooks=None, before_run
     W_arg = scn.get('max_workers')
     W = (1 if backend == 'serial' else (os.cpu_count() if W_arg is None else W_arg))
     ctx = scn.get('ctx', {'shared': 's', 'for_t0': 'c0', 'for_t1': 'c1', 'other': 'o'})
+    body.LAB_CTX, body.LAB_CTX_PID = ctx, os.getpid()
     failing = scn.get('failing') or {}
     out = Outcome()
     out.scn = scn
@@ -329,6 +330,9 @@ def run_dag(scn, *, hooks_factory=None, keep=False, extra_hooks=None, before_run
         signal.alarm(scn.get('watchdog_s', 150))     # property-specific hooks may re-arm it with their own bound
         if before_run is not None:
             before_run(out)
+        if scn.get('logger_level'):
+            # the caller's program configured the verbosity of the labtech logger (README: logger.setLevel(...))
+            labtech.logger.setLevel(getattr(logging, scn['logger_level']))
         out.t_call = time.monotonic_ns()
         try:
             res = lab.run_tasks(req, bust_cache=scn.get('bust', False),
@@ -385,6 +389,7 @@ def run_dag(scn, *, hooks_factory=None, keep=False, extra_hooks=None, before_run
         out.cached_after = {n for n in spec['tasks'] if lab2.is_cached(b2.inst(n))}
         return out
     finally:
+        labtech.logger.setLevel(logging.INFO)      # tasks of the serial backend or the scenario may have changed it
         ledger.uninstall()
         if not keep:
             cleanup(out)
